@@ -7,7 +7,7 @@ from pathlib import Path
 SCHEMA_PATH = Path(__file__).with_name("schema.graphql")
 SDL = SCHEMA_PATH.read_text()
 
-FRAG_ON = {"FJ": "J", "FI": "I", "FA": "A", "FA2": "A", "FU": "U", "FD": "D", "FInl": "J", "FB": "B", "FAfr": "A"}
+FRAG_ON = {"FJ": "J", "FI": "I", "FA": "A", "FA2": "A", "FU": "U", "FD": "D", "FInl": "J", "FB": "B", "FAfr": "A", "FDo": "D"}
 FRAG_TEXT = {
     "FJ": "fragment FJ on J {\n  id\n  name\n}",
     "FI": "fragment FI on I {\n  rank\n}",
@@ -18,8 +18,9 @@ FRAG_TEXT = {
     "FInl": "fragment FInl on J {\n  id\n  ... on A {\n    a1\n  }\n}",
     "FB": "fragment FB on B {\n  b1\n}",
     "FAfr": "fragment FAfr on A {\n  friend {\n    id\n  }\n}",
+    "FDo": "fragment FDo on D {\n  owner {\n    ...FAfr\n  }\n}",
 }
-FRAG_DEPS = {"FA2": ["FA"]}
+FRAG_DEPS = {"FA2": ["FA"], "FDo": ["FAfr"]}
 POSSIBLE = {"J": ["A", "B", "C"], "I": ["A", "B"], "U": ["A", "D"], "A": ["A"], "B": ["B"], "C": ["C"], "D": ["D"]}
 ROOT_TYPE = {"j": ("J", "T"), "i": ("I", "T!"), "u": ("U", "T"), "us": ("U", "[T!]!"), "js": ("J", "[T]"), "a": ("A", "T"),
              "aList": ("A", "[T!]"), "d": ("D", "T"), "mat": ("A", "[[T!]]")}
@@ -184,7 +185,7 @@ def features(op):
     walk(op["sels"], named, True)
     # the same response key reached through two different atoms of one selection set (field merging)
     FRAG_SELS = {"FJ": ["id", "name"], "FI": ["rank"], "FA": ["a1", "tags"], "FA2": ["a1", "tags", "color"], "FU": ["a1", "d1"],
-                 "FD": ["d1"], "FInl": ["id", "a1"], "FB": ["b1"], "FAfr": ["friend"]}
+                 "FD": ["d1"], "FInl": ["id", "a1"], "FB": ["b1"], "FAfr": ["friend"], "FDo": ["owner"]}
 
     def keys_of(a):
         if a["k"] == "f":
